@@ -36,6 +36,14 @@ Example C08_outcomes :
 Proof. repeat split; vm_compute; reflexivity. Qed.
 Print Assumptions C08_outcomes.
 
+From Asn1V Require Oer.OerWork.
+
+(** OER refutation (known finding oer-zero-width-array): k+1 octets decode under SEQUENCE OF NULL to 256^k - 1 elements, so no step bound proportional to the input holds for OER.
+    (statement = the type of [Asn1V.Oer.OerWork.oer_zero_width_elements_unbounded]; written out in that file) *)
+Theorem C08_oer_zero_width_elements_unbounded_refuted : ltac:(let T := type of Asn1V.Oer.OerWork.oer_zero_width_elements_unbounded in exact T).
+Proof. exact Asn1V.Oer.OerWork.oer_zero_width_elements_unbounded. Qed.
+Print Assumptions C08_oer_zero_width_elements_unbounded_refuted.
+
 (* OPEN: C08_uper_dec_steps : an instrumented step count linear in (length data + 1) times a
    type-dependent constant (fixed-size SEQUENCE OF of zero-width elements make the constant
    exponential in the nesting, so the bound must carry the declared sizes). *)
